@@ -306,12 +306,14 @@ class Identity(IdentityInterface):
     def _load_maildir(self, mailbox_path: str) \
             -> tuple[Maildir, MaildirLayout[Any]]:
         full_path = os.path.join(self._base_dir, mailbox_path)
-        layout = MaildirLayout.get(full_path, self.config.layout, Maildir)
-        create = not os.path.exists(full_path)
-        maildir = Maildir(full_path, create=create)
+        maildir_type = Maildir
         colon = self.config.colon
         if colon is not None:
-            maildir.colon = colon
+            # the info delimiter of every folder's file names, not only INBOX's
+            maildir_type = type('Maildir', (Maildir, ), {'colon': colon})
+        layout = MaildirLayout.get(full_path, self.config.layout, maildir_type)
+        create = not os.path.exists(full_path)
+        maildir = maildir_type(full_path, create=create)
         return maildir, layout
 
     async def get(self) -> UserMetadata:
